@@ -1,0 +1,26 @@
+//go:build verif
+
+// Contracts for the gocv verifier (comment-only file; see /verif/DESIGN.md §4).
+package sequence
+
+//@ import dns "github.com/miekg/dns"
+//@ import query_context "github.com/IrineSistiana/mosdns/v5/pkg/query_context"
+
+// respOK: a response answers query q — same ID, same single question, QR set (C03).
+//@ spec func respOK(q *dns.Msg, r *dns.Msg) bool = r != nil && r.Id == q.Id && r.Response && len(r.Question) == 1 && len(q.Question) == 1 && r.Question[0] == q.Question[0]
+
+// Behavioural contract every Executable (plugin, sequence, wrapped chain) must meet (C03, C15):
+// the query's ID and question are the same on return as on entry, the context still holds the
+// same query, client OPT and response OPT, and the response it leaves — if any — answers that
+// query and carries no OPT record.
+//@ interface Executable.Exec [C03, C15]
+//@   log entryExec
+//@   params self, ctx, qCtx
+//@   requires qCtx != nil
+//@   modifies *
+//@   ensures qCtx.query == old(qCtx.query) && qCtx.clientOpt == old(qCtx.clientOpt) && qCtx.respOpt == old(qCtx.respOpt)
+//@   ensures qCtx.query.Id == old(qCtx.query.Id) && len(qCtx.query.Question) == old(len(qCtx.query.Question))
+//@   ensures old(len(qCtx.query.Question)) == 1 ==> qCtx.query.Question[0] == old(qCtx.query.Question[0])
+//@   ensures qCtx.resp != nil ==> respOK(qCtx.query, qCtx.resp) && noOPT(qCtx.resp.Extra) && qCtx.resp != qCtx.query
+//@   ensures qCtx.respOpt != nil ==> qCtx.respOpt.Hdr.Rrtype == 41
+//@   ensures old(qCtx.clientOpt) != nil ==> old(qCtx.clientOpt).Hdr.Class == old(qCtx.clientOpt.Hdr.Class)
